@@ -18,11 +18,16 @@
     fixed-Huffman round trip (inflate_fixed_roundtrip(_final), inflate_fixed_literals_*,
     inflate_zlibFixedLiterals_roundtrip) over the spec-side encoder Spec/DeflateFixed.lean     — Lemmas/InflateFixed.lean
     (bit reader / code tables: Lemmas/InflateFixedBits.lean);
+    DYNAMIC-Huffman round trip and streams mixing stored / fixed / dynamic blocks
+    (inflate_blocks_roundtrip over the spec-side encoder Spec/DeflateDyn.lean)                 — Lemmas/InflateDyn.lean
+    (canonical-Huffman lemma `canon_code`, `tableOk_*`: Lemmas/InflateDynHuff.lean; header parser round trip
+    `dynamicTables_hdr`: Lemmas/InflateDynHdr.lean);
     all of them surfaced at the level of the filter glue below (`a85_corrupt_is_error`,
-    `flate_stored_corrupt_is_error`, `flate_fixed_roundtrip`, `LayerEnc.flateFixed`).
-  NOT a theorem: dynamic-Huffman zlib streams (`LayerEnc.flateAny` takes the Lean inflate's verdict
-  as hypothesis; the tie to the real zlib is the correspondence run), and corruptions of
-  Huffman-coded streams.
+    `flate_stored_corrupt_is_error`, `flate_fixed_roundtrip`, `LayerEnc.flateFixed`,
+    `inflate_dynamic_roundtrip`, `flate_dynamic_roundtrip`, `LayerEnc.flateDyn`).
+  NOT a theorem: that the real zlib (an external C library) computes the same function as the Lean
+  inflate (`LayerEnc.flateAny` takes the Lean inflate's verdict as hypothesis; the tie to the real
+  zlib is the correspondence run), and corruptions of Huffman-coded streams.
 -/
 import Parsley.Model.Filters
 import Parsley.Spec.Filters
@@ -31,6 +36,7 @@ import Parsley.Lemmas.FiltersInflate
 import Parsley.Lemmas.A85Reject
 import Parsley.Lemmas.InflateReject
 import Parsley.Lemmas.InflateFixed
+import Parsley.Lemmas.InflateDyn
 namespace Parsley.C06
 open Parsley Parsley.Filters Parsley.FiltersSpec
 
@@ -485,8 +491,13 @@ inductive LayerEnc : Bytes → Bytes → Bytes → Prop
   | flateFixed {blocks : List (List DeflateFixed.Tok)} {last : List DeflateFixed.Tok} {x trailing : Bytes} :
       DeflateFixed.resolveBlocks (blocks ++ [last]) [] = some x →
       LayerEnc nFlate x (DeflateFixed.zlibFixedF blocks last x ++ trailing)
-  /-- any other zlib stream, *as far as the modelled inflate decodes it to `x`* (dynamic-Huffman
-      streams: tied to the real zlib by the correspondence run, not by a theorem) -/
+  /-- a zlib stream of stored, fixed-Huffman and DYNAMIC-Huffman blocks in any order (RFC 1951 3.2.4
+      - 3.2.7) written by the specification's encoder from any valid plan for `x` (`DeflateDyn.planOk`:
+      valid code lengths, any header spelling, any LZ77 factorisation), followed by anything -/
+  | flateDyn {bs : List DeflateDyn.Block} {last : DeflateDyn.Block} {x trailing : Bytes} :
+      DeflateDyn.planOk bs last x → LayerEnc nFlate x (DeflateDyn.zlibBlocks bs last x ++ trailing)
+  /-- any other zlib stream, *as far as the modelled inflate decodes it to `x`* (streams of encoders
+      other than the specification's: tied to the real zlib by the correspondence run) -/
   | flateAny {x e : Bytes} : Inflate.inflate e = .ok x → LayerEnc nFlate x e
 
 /-- `ChainEnc fs payload content`: `content` is `payload` encoded for the filter list `fs`
@@ -514,6 +525,9 @@ theorem layer_roundtrip (ext : Ext) (f : Filter) (x e : Bytes) (h : LayerEnc f.n
   | flateFixed h =>
     simp only [if_true]
     exact flateDecode_ok ext _ _ _ hp (inflate_fixed_roundtrip_final _ _ _ _ h)
+  | flateDyn h =>
+    simp only [if_true]
+    exact flateDecode_ok ext _ _ _ hp (inflate_blocks_roundtrip _ _ _ _ h)
   | flateAny h =>
     simp only [if_true]
     exact flateDecode_ok ext _ _ _ hp h
@@ -761,6 +775,48 @@ example (ext : Ext) : flateDecode ext (some []) (DeflateFixed.zlibFixedF [[.lit 
       [97, 98, 99, 97, 98, 99, 97, 98, 99, 97, 98, 99, 33] ++ [0x0D, 0x0A]) =
     .ok [97, 98, 99, 97, 98, 99, 97, 98, 99, 97, 98, 99, 33] :=
   flate_fixed_roundtrip ext (some []) rfl _ _ _ _ (by decide)
+
+/-! ### dynamic-Huffman blocks, and streams mixing the three block types (proofs: Lemmas/InflateDyn.lean) -/
+
+/-- **inflate_dynamic_roundtrip.**  The executable inflate returns exactly `payload` for the zlib
+    stream the specification's encoder (Spec/DeflateDyn.lean) writes from ANY valid plan: blocks
+    of all three types in any order (`bs`, then the final block `last`); every dynamic block with
+    an arbitrary valid header — HLIT + 257 and HDIST + 1 code lengths of at most 15 bits forming a
+    complete code (Kraft equality), or no distance code at all, or a single code of length 1 (the
+    incomplete sets zlib's `inflate_table` takes); a complete code-length code of at most 7 bits;
+    any HCLEN covering its non-zero lengths; ANY run-length spelling of the lengths with symbols
+    16 / 17 / 18, runs crossing from the literal/length into the distance lengths included — and
+    with the canonical codes of RFC 1951 3.2.2 for the symbols of ANY LZ77 factorisation
+    (literals, <length, distance> pairs with every legal symbol / extra-bit choice, overlapping
+    copies, copies reaching back into earlier blocks of any type); stored blocks aligned to the
+    next byte boundary wherever they fall; whatever bytes follow the Adler-32 trailer. -/
+theorem inflate_dynamic_roundtrip (bs : List DeflateDyn.Block) (last : DeflateDyn.Block)
+    (payload trailing : Bytes) (h : DeflateDyn.planOk bs last payload) :
+    Inflate.inflate (DeflateDyn.zlibBlocks bs last payload ++ trailing) = .ok payload :=
+  inflate_blocks_roundtrip bs last payload trailing h
+
+/-- **flate_dynamic_roundtrip.**  The same through `FlateDecode::transform` (predictor 1). -/
+theorem flate_dynamic_roundtrip (ext : Ext) (o : Option Dict) (hpred : predictorOf o = 1)
+    (bs : List DeflateDyn.Block) (last : DeflateDyn.Block) (payload trailing : Bytes)
+    (h : DeflateDyn.planOk bs last payload) :
+    flateDecode ext o (DeflateDyn.zlibBlocks bs last payload ++ trailing) = .ok payload :=
+  flateDecode_ok ext o _ _ hpred (inflate_blocks_roundtrip bs last payload trailing h)
+
+/-- one dynamic block: the instance the name promises -/
+theorem inflate_one_dynamic_block (hd : DeflateDyn.Hdr) (toks : List DeflateFixed.Tok) (payload trailing : Bytes)
+    (hok : hd.ok = true) (hu : ∀ t ∈ toks, DeflateDyn.tokUsable hd.litLens hd.distLens t = true)
+    (hres : DeflateFixed.resolve toks [] = some payload) :
+    Inflate.inflate (DeflateDyn.zlibBlocks [] (.dyn hd toks) payload ++ trailing) = .ok payload := by
+  apply inflate_blocks_roundtrip
+  refine ⟨?_, ?_⟩
+  · intro b hb
+    simp only [List.nil_append, List.mem_singleton] at hb
+    subst hb
+    simp only [DeflateDyn.Block.ok, Bool.and_eq_true, List.all_eq_true]
+    exact ⟨hok, hu⟩
+  · simp [DeflateFixed.resolveBlocks, DeflateDyn.Block.toks, hres]
+
+-- non-vacuity: the concrete instances are in Props/C06Dyn.lean (kept out of this module, which others import)
 
 /-! ### witnesses of the repaired defects (pre-repair glue) -/
 
